@@ -511,7 +511,7 @@ fn still_violates(code: &str, input: &[u8], job: &Job, alloc_mode: u32, step_cap
         let len = code.chars().count() as isize;
         j.cfg.mode = Mode::Unsafe { lo: sp.lo as isize - len, hi: sp.hi as isize + len + 1 };
     }
-    let o = RunOpts { alloc_mode, ceiling_s: 5, rerun_on_timeout: false, validate_bc: false, cover_bc: false, mem_limit: 0 };
+    let o = RunOpts { alloc_mode, ceiling_s: 5, rerun_on_timeout: false, validate_bc: false, cover_bc: false, mem_limit: 0, fail_at: 0 };
     let obs = run_case(code, std::slice::from_ref(&j), &o);
     let v = judge(&j, &sp, &obs[0]);
     let v = if v == Verdict::Held { judge_budget(&j, &sp, &obs[0]) } else { v };
@@ -697,4 +697,340 @@ pub fn bcdump(args: &Args) -> i32 {
         println!("VALIDATOR: {:?}", x);
     }
     0
+}
+
+// ---- C17: allocation-failure enumeration --------------------------------------------------------
+
+fn c17_programs(rng: &mut Rng, n: usize) -> Vec<(String, &'static str)> {
+    let mut v: Vec<(String, &'static str)> = vec![
+        ("+.>+.".to_string(), "first allocation"),
+        ("+<<<<<<<<<<<<<<<<<<<<+.>>>>>>>>>>>>>>>>>>>>.".to_string(), "grow left"),
+        ("+>>>>>>>>>>>>>>>>>>>>>>>>>>>>>>>>>>>>>>>>+.<<<<<<<<<<<<<<<<<<<<<<<<<<<<<<<<<<<<<<<<.".to_string(), "grow right"),
+        ("+[>+<-]>[<<+>>>+<-]<<.>>>.".to_string(), "both directions"),
+        ("++++++++[>++++++++<-]>[>+>+<<-]>.>.<<<<<<<<<+.".to_string(), "loop then left"),
+        ("++++[>+<<+>-]>.<<.".to_string(), "window on both sides"),
+        (",[>,]<[.<]".to_string(), "input driven growth right"),
+        (",[<,]>[.>]".to_string(), "input driven growth left"),
+    ];
+    // far moves in both directions with a marker that is printed afterwards
+    let mut far = String::from("+++");
+    for _ in 0..700 {
+        far.push('>');
+    }
+    far.push_str("++.");
+    for _ in 0..1500 {
+        far.push('<');
+    }
+    far.push_str("+.");
+    for _ in 0..800 {
+        far.push('>');
+    }
+    far.push('.');
+    v.push((far, "far right then far left, revisit"));
+    v.push(("+[>+<-]+>[>[>]+[<]>-]>[.>]".to_string(), "scan growth"));
+    while v.len() < n {
+        v.push((gen::roaming(rng, 4000), "generated roaming"));
+    }
+    v
+}
+
+pub fn c17(args: &Args) -> i32 {
+    let mut t = Tally::new("C17", &args.replay_dir);
+    let start = std::time::Instant::now();
+    let mut rng = Rng::derive(args.seed, 17, 0);
+    let progs = c17_programs(&mut rng, args.count as usize);
+    let mut idx = args.shard as usize;
+    while idx < progs.len() {
+        let (code, kind) = &progs[idx];
+        idx += args.nshards as usize;
+        let bits = *rng.pick(&[8u32, 16, 32, 64]);
+        let input: Vec<u8> = vec![3, 1, 4, 1, 5, 9, 2, 6];
+        let sp = match spec::run(code, &input, spec_opts(bits, true, false)) {
+            Some(s) if s.status == Status::Halted => s,
+            _ => {
+                t.inc("spec.skipped", 1);
+                continue;
+            }
+        };
+        t.inc("programs", 1);
+        t.inc(&format!("kind.{kind}"), 1);
+        for backend in [Backend::Inplace, Backend::IrInt, Backend::BcInt, Backend::Jit] {
+            for level in [0u32, 2] {
+                if backend == Backend::Inplace && level != 0 {
+                    continue;
+                }
+                let job = Job { cfg: Cfg { backend, bits, level, mode: Mode::Exec }, io: Io::plain(&input) };
+                // clean run: count armed allocations
+                let o = RunOpts { alloc_mode: alloc::FAIL, fail_at: 0, ceiling_s: 10, validate_bc: false, cover_bc: false, ..Default::default() };
+                let clean = run_case(code, std::slice::from_ref(&job), &o);
+                if judge(&job, &sp, &clean[0]) != Verdict::Held {
+                    t.inc("clean_run_not_held", 1);
+                    continue;
+                }
+                let n = clean[0].aux[1];
+                t.inc("clean_runs", 1);
+                t.max("max_allocations_in_one_run", n);
+                let maxk = n.min(if args.thorough { 400 } else { 60 });
+                for k in 1..=maxk {
+                    sys::shared().scratch[14] = 0;
+                    sys::shared().scratch[15] = 0;
+                    let o = RunOpts { alloc_mode: alloc::FAIL, fail_at: k, ceiling_s: 10, rerun_on_timeout: false, validate_bc: false, cover_bc: false, ..Default::default() };
+                    let obs = run_case(code, std::slice::from_ref(&job), &o);
+                    let ob = &obs[0];
+                    let failed_kind = sys::shared().scratch[14];
+                    let failed_size = sys::shared().scratch[15];
+                    t.inc("evaluations", 1);
+                    t.inc(&format!("eval.{}", backend.name()), 1);
+                    if failed_kind == 0 {
+                        t.inc("fault_not_reached", 1);
+                        continue;
+                    }
+                    t.inc(if failed_kind == 2 { "failed.zeroed_request (tape / context)" } else { "failed.plain_request (Vec etc.)" }, 1);
+                    t.distinct.insert(fnv64(format!("{code}|{bits}|{}|{level}|{k}", backend.name()).as_bytes()));
+                    let prefix_ok = ob.events.len() <= sp.events.len() && ob.events[..] == sp.events[..ob.events.len()];
+                    let verdict: Result<&str, String> = match (&ob.end, ob.state) {
+                        (engine::End::Crash(6), _) => Ok("abort"),
+                        (engine::End::Normal, sys::ST_PANICKED) => Ok("panic"),
+                        (engine::End::Crash(s), _) => Err(format!("died with signal {s} instead of aborting")),
+                        (engine::End::GuardFault { addr, .. }, _) => Err(format!("memory fault at {addr:#x} after the failed allocation (null or stale tape used)")),
+                        (engine::End::Normal, _) => Err("execution continued and returned normally after the failed allocation".to_string()),
+                        (engine::End::Timeout, _) => {
+                            t.inc("inconclusive", 1);
+                            t.inconclusive.push(format!("{} k={k}: watchdog", job.cfg.describe()));
+                            continue;
+                        }
+                        (e, _) => Err(format!("unexpected end {e:?}")),
+                    };
+                    let verdict = match verdict {
+                        Ok(v) if !prefix_ok => Err(format!("ended by {v} but the events before it are not a prefix of the canonical run")),
+                        v => v,
+                    };
+                    match verdict {
+                        Ok(v) => {
+                            t.inc("held", 1);
+                            t.inc(&format!("ending.{v}"), 1);
+                            if t.samples.len() < t.max_samples && failed_kind == 2 {
+                                t.sample(Obj::new().s("program", &code[..code.len().min(120)]).n("bits", bits).s("backend", backend.name()).n("level", level).n("failed_allocation_index", k).n("failed_request_bytes", failed_size).s("ending", v).n("events_before", ob.events.len()).done());
+                            }
+                        }
+                        Err(why) => {
+                            t.inc("violated", 1);
+                            let sig = format!("{}|{}", backend.name(), if failed_kind == 2 { "zeroed" } else { "plain" });
+                            let body = job_json(code, &input, &job, alloc::FAIL).n("fail_at", k).n("failed_request_bytes", failed_size).b("failed_request_zeroed", failed_kind == 2).s("why", &why);
+                            t.violation(&sig, body);
+                        }
+                    }
+                }
+            }
+        }
+    }
+    t.write(&args.out, &[("wall_s".to_string(), format!("{:.2}", start.elapsed().as_secs_f64()))]);
+    if t.violations.is_empty() {
+        0
+    } else {
+        1
+    }
+}
+
+// ---- C05: divergence / termination preservation ------------------------------------------------
+
+/// Run one job in a child for at most `window_ms`; returns (returned_within_window, observation).
+fn probe(code: &str, job: &Job, window_ms: u64) -> (bool, Obs) {
+    use crate::engine::End;
+    sys::reset_shared();
+    let jobs = std::slice::from_ref(job);
+    let o = RunOpts { ceiling_s: 120, rerun_on_timeout: false, validate_bc: false, cover_bc: false, ..Default::default() };
+    let end = sys::fork_run(window_ms, || engine::child_body_pub(code, jobs, 0, 1, &o, 120));
+    let e = match end {
+        sys::ChildEnd::Exit(0) => End::Normal,
+        sys::ChildEnd::Exit(70) => End::GuardFault { addr: sys::shared().fault_addr, in_arena: sys::shared().fault_seen == 1 },
+        sys::ChildEnd::Exit(c) => End::ExitCode(c),
+        sys::ChildEnd::Signal(s) => End::Crash(s),
+        sys::ChildEnd::Timeout => End::Timeout,
+    };
+    let returned = e == End::Normal;
+    (returned, engine::snapshot_pub(0, e))
+}
+
+pub fn c05(args: &Args) -> i32 {
+    let prop = "C05";
+    let corpus = load_corpus(&args.corpus);
+    let mut t = Tally::new(prop, &args.replay_dir);
+    let start = std::time::Instant::now();
+    let ncorpus = corpus.items.len() as u64;
+    let total = args.count + ncorpus;
+    let mut idx = args.shard;
+    let base_window: u64 = args.get_u64("window-ms", 100);
+    while idx < total {
+        if start.elapsed().as_secs() >= args.secs {
+            t.inc("stopped_by_time", 1);
+            break;
+        }
+        let mut rng = Rng::derive(args.seed, fnv64(prop.as_bytes()), idx);
+        let case = if idx < ncorpus {
+            let it = &corpus.items[idx as usize];
+            Case { code: it.0.clone(), bits: if it.1.is_some() { 8 } else { *rng.pick(&[8u32, 8, 16, 32]) }, family: Family::Corpus, fixed_input: it.1.clone() }
+        } else {
+            gen_case(prop, &mut rng, &corpus, args.thorough)
+        };
+        idx += args.nshards;
+        t.inc("programs", 1);
+        t.inc(&format!("family.{}", case.family.name()), 1);
+        let inputs = match &case.fixed_input {
+            Some(i) => vec![i.clone()],
+            None => gen::inputs(&mut rng, false),
+        };
+        let reads_input = case.code.contains(',');
+        for (ii, input) in inputs.iter().enumerate() {
+            if ii > 0 && !reads_input {
+                break;
+            }
+            let t_spec = std::time::Instant::now();
+            let sp = match spec::run(&case.code, input, spec_opts(case.bits, args.thorough, true)) {
+                Some(s) => s,
+                None => continue,
+            };
+            let spec_ms = t_spec.elapsed().as_secs_f64() * 1000.0;
+            match sp.status {
+                Status::Cap => {
+                    t.inc("spec.neither_halts_nor_provably_cycles_within_cap", 1);
+                    continue;
+                }
+                Status::Halted => {
+                    // (c) terminating programs terminate everywhere (sampled: the diff checks do this at scale)
+                    if !rng.chance(1, 3) {
+                        continue;
+                    }
+                    t.inc("spec.halted", 1);
+                    let mut jobs = Vec::new();
+                    for b in [Backend::Inplace, Backend::IrInt, Backend::BcInt, Backend::Jit] {
+                        for l in [0u32, 1, 2, 3] {
+                            if b == Backend::Inplace && l != 0 {
+                                continue;
+                            }
+                            jobs.push(Job { cfg: Cfg { backend: b, bits: case.bits, level: l, mode: Mode::Exec }, io: Io::plain(input) });
+                        }
+                    }
+                    let o = RunOpts { ceiling_s: 5, ..Default::default() };
+                    let obs = run_case(&case.code, &jobs, &o);
+                    for (job, ob) in jobs.iter().zip(obs.iter()) {
+                        t.inc("evaluations", 1);
+                        t.inc("halting.evaluations", 1);
+                        match judge(job, &sp, ob) {
+                            Verdict::Held => t.inc("held", 1),
+                            Verdict::Inconclusive(w) => {
+                                t.inc("inconclusive", 1);
+                                t.inconclusive.push(format!("{} :: {}", job.cfg.describe(), w));
+                            }
+                            Verdict::Violated(why) => {
+                                t.inc("violated", 1);
+                                let sig = format!("halting|{}|{}", job.cfg.backend.name(), why.split(':').next().unwrap_or(""));
+                                let body = job_json(&case.code, input, job, 0).s("why", &why).s("canonical", "halts").s("expected", &spec::fmt_events(&sp.events, 40)).s("observed", &spec::fmt_events(&ob.events, 40));
+                                t.violation(&sig, body);
+                            }
+                        }
+                    }
+                }
+                Status::Cycle { at_step, period, events_before, events_per_period } => {
+                    t.inc("spec.cycle_proved", 1);
+                    t.inc(if events_per_period == 0 { "cycle.silent" } else { "cycle.printing" }, 1);
+                    if spec_ms > 30.0 {
+                        t.inc("cycle.skipped_canonical_too_slow", 1);
+                        continue;
+                    }
+                    let window = base_window.max((spec_ms * 100.0) as u64);
+                    let h = fnv64(format!("{}|{}|{}", case.code, json::hex(input), case.bits).as_bytes());
+                    t.distinct.insert(h);
+                    if t.samples.len() < t.max_samples {
+                        t.sample(
+                            Obj::new()
+                                .s("program", &case.code)
+                                .s("input_hex", &json::hex(input))
+                                .n("bits", case.bits)
+                                .s("canonical", &format!("state after step {at_step} recurs {period} steps later; {events_before} events before the cycle, {events_per_period} per period"))
+                                .s("canonical_events", &spec::fmt_events(&sp.events, 16))
+                                .n("window_ms", window)
+                                .done(),
+                        );
+                    }
+                    for b in [Backend::Inplace, Backend::IrInt, Backend::BcInt, Backend::Jit] {
+                        for l in [0u32, 1, 2, 3] {
+                            if b == Backend::Inplace && l != 0 {
+                                continue;
+                            }
+                            let job = Job { cfg: Cfg { backend: b, bits: case.bits, level: l, mode: Mode::Exec }, io: Io::plain(input) };
+                            let (returned, mut ob) = probe(&case.code, &job, window);
+                            t.inc("evaluations", 1);
+                            t.inc("diverging.evaluations", 1);
+                            t.inc(&format!("eval.{}", b.name()), 1);
+                            let mut why: Option<String> = None;
+                            if returned {
+                                why = Some(format!(
+                                    "returned (state {}) although the canonical run provably repeats its state after step {at_step} (period {period})",
+                                    ob.state
+                                ));
+                            } else if ob.end != engine::End::Timeout {
+                                why = Some(format!("ended with {:?} instead of running forever", ob.end));
+                            } else {
+                                // still running when the window closed: compare what it did so far
+                                let mut check = |ob: &Obs| -> Result<(), (bool, String)> {
+                                    let n = ob.events.len().min(sp.events.len());
+                                    if ob.events[..n] != sp.events[..n] {
+                                        return Err((true, format!("events before/inside the cycle differ: expected [{}], observed [{}]", spec::fmt_events(&sp.events, 12), spec::fmt_events(&ob.events, 12))));
+                                    }
+                                    if events_per_period == 0 {
+                                        if ob.n_events > sp.total_events {
+                                            return Err((true, format!("{} events observed, the canonical run produces only {} before looping silently", ob.n_events, sp.total_events)));
+                                        }
+                                        if ob.n_events < sp.total_events {
+                                            return Err((false, format!("only {} of the {} canonical events were produced before the window closed", ob.n_events, sp.total_events)));
+                                        }
+                                    } else if ob.n_events <= events_before {
+                                        return Err((false, format!("no event of the printing cycle was produced ({} so far, {} precede the cycle)", ob.n_events, events_before)));
+                                    }
+                                    Ok(())
+                                };
+                                match check(&ob) {
+                                    Ok(()) => {}
+                                    Err((true, w)) => why = Some(w),
+                                    Err((false, w)) => {
+                                        // missing events: only a verdict after an isolated re-run with a 10x window
+                                        t.inc("isolated_reruns", 1);
+                                        let (r2, ob2) = probe(&case.code, &job, window * 10);
+                                        if r2 {
+                                            why = Some("returned on the re-run although the canonical run diverges".to_string());
+                                        } else {
+                                            match check(&ob2) {
+                                                Ok(()) => {}
+                                                Err((_, w2)) => why = Some(format!("{w2} (confirmed with a 10x window; first: {w})")),
+                                            }
+                                        }
+                                        ob = ob2;
+                                    }
+                                }
+                            }
+                            match why {
+                                None => {
+                                    t.inc("held", 1);
+                                    t.inc("events_compared", ob.n_events.min(EV_CAP as u64));
+                                }
+                                Some(w) => {
+                                    t.inc("violated", 1);
+                                    let sig = format!("diverging|{}|{}", b.name(), w.split(' ').next().unwrap_or(""));
+                                    let body = job_json(&case.code, input, &job, 0).s("why", &w).s("canonical", "cycle").n("window_ms", window).s("expected", &spec::fmt_events(&sp.events, 40)).s("observed", &spec::fmt_events(&ob.events, 40));
+                                    t.violation(&sig, body);
+                                }
+                            }
+                        }
+                    }
+                }
+            }
+        }
+    }
+    t.write(&args.out, &[("wall_s".to_string(), format!("{:.2}", start.elapsed().as_secs_f64()))]);
+    if t.violations.is_empty() {
+        0
+    } else {
+        1
+    }
 }
